@@ -137,6 +137,21 @@ def oracle_doc(case):
         missing = [x for x in a if x not in b][:2]
         extra = [x for x in b if x not in a][:2]
         out.append(('records differ between input and output', missing, extra))
+    # the parsed lines themselves, not only their text: as many positional fields and the same tag names with the same
+    # datatypes as an independent tokeniser finds in the written line (a tag kept as a positional field writes the same text)
+    for ln in G.lines:
+        if ln.record_type in ('#', 'H') or ln.virtual:
+            continue
+        rr = impl.outcome(lambda: (str(ln), len(ln.positional_fieldnames), sorted((t, ln.get_datatype(t)) for t in ln.tagnames)))
+        if rr[0] != 'ok':
+            continue
+        txt, npos_got, tags_got = rr[1]
+        rec = records_of([txt], ver)[0]
+        tags_want = sorted(tuple(t.split(':', 2)[:2]) for t in rec[2])
+        if npos_got != len(rec[1]) or tags_got != tags_want:
+            out.append(('the parsed line %r has other positional fields / tags than its text' % txt[:60],
+                        (len(rec[1]), tags_want), (npos_got, tags_got)))
+            break
     r2 = impl.outcome(lambda: str(g.Gfa(text, **kw)))
     if r2[0] != 'ok':
         out.append(('the written document does not parse again', 'accepted', impl.outcome_name(r2)))
@@ -169,6 +184,8 @@ def doc_term(case, written):
 # hand-made documents that run first: a path over one segment (no link needed), several paths over one link, a
 # link given twice in complement forms, ordered groups of one item, nested sets
 CORPUS = [
+    # custom records made of tags only, of one positional field, and of fields that only resemble tags
+    (['H\tVN:Z:2.0', 'S\ta\t10\t*', 'Y\txx:i:1\tyy:Z:abc', 'Z\tzz:i:5', 'W\tfield\tab:Z:x', 'V\tx1:i:1\tnot a tag\tab:f:1.5', 'T'], 'gfa2'),
     (['S\ta\t*', 'P\tp\ta+\t*'], 'gfa1'),
     # characters that some text functions take for line ends (form feed, file/group/record separators) inside a comment
     # and inside a field of a custom record: the only line end of a document is LF (or CRLF)
